@@ -60,7 +60,7 @@ TAGS = {1: "push_was_empty", 2: "push_not_empty", 3: "override_wakeup_bound", 4:
         24: "signal_before_wait", 25: "signal_needs_futex_wake", 26: "drain_exit_wakeup", 27: "cleanup2_rmw", 28: "cleanup2_list_not_empty",
         29: "cleanup2_released_empty", 30: "cleanup2_saw_dirty", 31: "cleanup2_enqueued_lane", 32: "worker_lock_attempt",
         33: "worker_locked", 34: "worker_lock_refused", 35: "worker_pop_last", 36: "worker_pop_raced_push", 37: "worker_unlocked",
-        38: "worker_unlock_refused_dirty", 39: "worker_head_not_published"}
+        38: "worker_unlock_refused_dirty", 39: "worker_head_not_published", 40: "stale_bound_wakeup_found_handle_closed"}
 # every stress run of the quick tier reaches these (dozens to thousands of times); missing one means the run did not test the protocol
 REQUIRED = [1, 2, 3, 5, 7, 8, 16, 17, 21, 25, 26, 27, 32, 33, 37]
 
@@ -156,17 +156,17 @@ def normalise(lay, per):
 
 
 def coq_conform(name, jobs, chunk_events=5000, timeout=900):
-    """jobs: list of (self, ismain, floor, main, [NEv]) -> list of int lists [idx, idle, counts...]"""
+    """jobs: list of (self, ismain, floor, main, p2, [NEv]) -> list of int lists [idx, idle, counts...]"""
     res, i, ci = [], 0, 0
     while i < len(jobs):
         part, n = [], 0
-        while i < len(jobs) and (not part or n + len(jobs[i][4]) <= chunk_events):
+        while i < len(jobs) and (not part or n + len(jobs[i][5]) <= chunk_events):
             part.append(jobs[i])
-            n += len(jobs[i][4])
+            n += len(jobs[i][5])
             i += 1
-        rows = ["(%d, %d, %d, %d, [%s])" % (sv, im, fl, mn, "; ".join(e.coq() for e in tr)) for (sv, im, fl, mn, tr) in part]
-        body = ["Definition jobs : list (Z * Z * Z * Z * list event) := [", ";\n".join(rows), "].",
-                "Eval vm_compute in map (fun '(sv, im, fl, mn, tr) => conform sv im fl mn tr) jobs."]
+        rows = ["(%d, %d, %d, %d, %d, [%s])" % (sv, im, fl, mn, p2, "; ".join(e.coq() for e in tr)) for (sv, im, fl, mn, p2, tr) in part]
+        body = ["Definition jobs : list (Z * Z * Z * Z * Z * list event) := [", ";\n".join(rows), "].",
+                "Eval vm_compute in map (fun '(sv, im, fl, mn, p2, tr) => conform sv im fl mn p2 tr) jobs."]
         ok, vals, raw = driver.coq_eval("%s_%d" % (name, ci), IMPORTS, "\n".join(body) + "\n", timeout=timeout)
         ci += 1
         if not ok or len(vals) != 1:
@@ -220,6 +220,30 @@ def total_order_oracle(per, main_thr):
     return probs
 
 
+def skipped_pokes(traces, main_thr):
+    """thread-bound wakeups that found items (probe of dq_items_tail != NULL, then the poke loop) and returned without writing
+    the eventfd: legitimate only once dispatch_main() has been called (the handle is closed at the end of cleanup2).
+    Returns the stamps of skips that happened before the main thread's MARK 3 (or anywhere if there is none)."""
+    m3 = next((e.seq for e in traces.get(main_thr, []) if e.kind == 104 and e.obj == 3), None)
+    bad = []
+    for thr, tr in traces.items():
+        bound, st = False, 0     # st: 0 idle, 1 saw probe != 0 in a thread-bound wakeup, 2 saw the poke loop's load
+        for e in tr:
+            if e.kind == 1 and e.obj == 0 and e.off == 24:
+                bound, st = bool(e.a & 0x40000), 0
+            elif e.kind == 1 and e.obj == 0 and e.off == 8 and e.order == 5:
+                st = 1 if (bound and e.a != 0) else 0
+            elif st == 1 and e.kind == 1 and e.obj == 0 and e.off == 0:
+                st = 2
+            elif st == 2 and e.kind == 5 and e.obj == 0 and e.off == 0:
+                pass
+            elif st == 2:
+                if not (e.kind == 104 and e.obj == 5) and (m3 is None or e.seq < m3):
+                    bad.append((thr, e.seq))
+                st = 0
+    return bad
+
+
 PLANS = {   # (scenario, permille, scale)
     "quick": [("direct", 0, 1), ("direct", 200, 1), ("targeting", 150, 1), ("nested", 100, 1), ("spurious", 300, 1),
               ("phase2", 100, 1), ("phase2", 350, 1), ("phase2_sync", 150, 1)],
@@ -245,10 +269,15 @@ def analyse(text, died, scn, label, args):
     if scn == "direct" and main_thr is not None and not died and not flines:
         for p in total_order_oracle(traces, main_thr):
             fails.append({"key": "%s:order" % scn, "what": "%s [scenario %s, run %s]" % (p, scn, label), "args": args})
+    if main_thr is not None:
+        for thr, sq in skipped_pokes(traces, main_thr)[:3]:
+            fails.append({"key": "%s:nopoke" % scn, "what": "a thread-bound wakeup found items on the main queue and returned without "
+                          "writing the eventfd (thread #%d, stamp %d) although dispatch_main() had not been called: the bound thread is "
+                          "never told [scenario %s, run %s]" % (thr, sq, scn, label), "args": args})
     if scn != "phase2_sync":      # synchronous contexts queued across dispatch_main(): outside the model, oracle only
         for thr, tr in sorted(traces.items()):
             tid = per[thr][0].tid
-            jobs.append((tid & MASK, 1 if tid == main_tid else 0, 0, main_tid & MASK, tr))
+            jobs.append((tid & MASK, 1 if tid == main_tid else 0, 0, main_tid & MASK, 1 if scn.startswith("phase2") else 0, tr))
             meta.append({"run": label, "thread": thr, "tid": tid, "role": "main" if tid == main_tid else roles.get(tid, "worker")})
     stats["dropped_events"] = dropped
     return fails, jobs, meta, stats, main_thr
@@ -272,7 +301,7 @@ def correspond(ctx):
         dist["runs_" + scn] = dist.get("runs_" + scn, 0) + 1
     res = coq_conform("c02mq_conf", jobs)
     counts, nev = [0] * 64, 0
-    for g, (sv, im, fl, mn, tr), mt in zip(res, jobs, meta):
+    for g, (sv, im, fl, mn, p2, tr), mt in zip(res, jobs, meta):
         nev += len(tr)
         i, idle = g[0], g[1]
         for k, c in enumerate(g[2:]):
@@ -291,7 +320,7 @@ def correspond(ctx):
         mism.append({"what": "the stress runs did not reach these branches of the main-queue protocol: " + ", ".join(missing),
                      "detail": {"branch_counts": {TAGS[k]: counts[k] for k in TAGS}}})
     shapes = len([c for c in counts if c])
-    samples = [dict(meta[k], first_events=[e.brief() for e in jobs[k][4][:20]]) for k in range(min(3, len(jobs)))]
+    samples = [dict(meta[k], first_events=[e.brief() for e in jobs[k][5][:20]]) for k in range(min(3, len(jobs)))]
     return {"evaluations": nev, "distinct_nontrivial": shapes,
             "rule": "stress runs of harness/c02_mainq.c, one scenario per process (direct, targeting, nested, spurious, phase2, "
                     "phase2_sync), 4..7 client threads against the main thread acting as the run loop, schedule perturbation inside "
